@@ -13,6 +13,14 @@ package helpers
 //@   requires len(a) > 0 && len(b) > 0
 //@   ensures eq == (len(a) == len(b) && forall j int :: 0 <= j && j < len(a) ==> a[j] == b[j])
 
+// IndexFunc calls a function value (outside the modelled subset), so its contract is trusted: only the range of the
+// result is claimed, and that the call writes nothing (the one predicate handed to it in this code base is a read-only
+// closure over the verified charInFixedDistanceSet); which index it returns is stated where it is called.
+//@ func IndexFunc(in []rune, f func(ch rune) bool) (r int)
+//@   trusted function-valued argument; range of the result and purity only
+//@   pure
+//@   ensures -1 <= r && r < len(in)
+
 //@ func IndexOf(in []rune, find []rune) (r int)
 //@   props C03
 //@   requires len(find) > 0
